@@ -497,7 +497,33 @@ class C10(Driver):
         knobs = {"seed": seed, "gc": gc, "explicit": 1, "faults": []}   # no simulator faults: the faults are in the plan
         if r.random() < 0.2:
             return self.gen_asm(r, knobs, scale)
+        if r.random() < 0.04:
+            return self.gen_nest(r, knobs)
         return self.gen_unmarshal(r, knobs, scale)
+
+    NEST = {
+        "array": (bytes([209, 1]), b"\x01"), "tuple": (bytes([210, 1, 0]), b"\x01"), "table-value": (bytes([211, 1, 0]), b"\x01"),
+        "table-key": (bytes([211, 1]), b"\x01"), "table-proto": (bytes([212, 0]), bytes([211, 0])), "struct-value": (bytes([213, 1, 0]), b"\x01"),
+        "channel": (b"\xD9\xDA\x00\x00\x00\x01\x01", b"\x01"),
+    }
+
+    def gen_nest(self, r, knobs):
+        """one kind of container nested in itself far beyond the recursion guard: loads or raises, never overflows the C stack"""
+        name = "small"
+        data, dct = self.image(name)
+        cases = []
+        for kind in r.sample(sorted(self.NEST), 3):
+            pre, leaf = self.NEST[kind]
+            depth = r.choice([200, 1100, 20000, 60000])
+            if kind == "channel":
+                blob = b"\xD9\xCF\x0Ccore/channel\x00\x00\x01\x01" + pre * depth + leaf
+            elif kind == "table-key":
+                blob = pre * depth + leaf + b"\x00" * depth      # each table: count 1, key = nested table, value 0
+            else:
+                blob = pre * depth + leaf
+            cases.append({"k": "field", "b": 0, "lk": 0, "mask": 1 | 2 | 256, "aseed": depth % 997, "p": [[0, len(data), blob.hex()]],
+                          "d": "%s nested %d deep" % (kind, depth)})
+        return {"property": "C10", "leg": "unmarshal", "bases": [name], "cases": cases, "knobs": dict(knobs, gc="bern 0.003"), "nest": 1}
 
     def gen_unmarshal(self, r, knobs, scale=1.0):
         corp = self.corpus()
